@@ -9,7 +9,7 @@ def run(tier, only=''):
                     'rendered as DDL statements (ddlast_from_delta), replayed statement by statement; whenever the migration is '
                     'accepted the result must equal B structurally (names, bases, ancestors, abstractness, pointers with target / '
                     'required / cardinality, annotations) and leave no residual delta.',
-                    {'schemas': ('4' if tier == 'quick' else '5') + ' recipes x at most %d extra command(s) per side out of %d' % (1 if tier == 'quick' else 2, nmig)},
+                    {'schemas': '4 recipes x at most %d extra command(s) per side out of %d' % (1 if tier == 'quick' else 2, nmig)},
                     ['a migration that is refused (an error while computing, applying or replaying it) is outside the statement; '
                      'the share of refused DDL replays is reported under events["ddl replay refused"]',
                      'DDL replay starts from the DDL statement nodes, not from text (no parser)'],
